@@ -29,7 +29,7 @@ import re
 
 from .common import Ctx, compile_many, fork_map, load_design_module, import_cohdl
 from . import lean_io
-from .vhdl_sim import Design, SL, Vec, EnumV, Arr, Storage
+from .vhdl_sim import Design, SL, Vec, EnumV, Arr, Storage, VhdlTypeError, VhdlRuntimeError
 
 # ---------------------------------------------------------------------------------------------------
 # design descriptor
@@ -141,11 +141,23 @@ def r_body(d, stmts, ind):
     return out
 
 
+def ctl_expr(d, name):
+    """the clock / reset / step-condition signal: a port of its own, or a bit of the control bus `ctrl` (a vector
+    port) or of a local copy `cs` of it"""
+    ctl = d.get("ctl") or {}
+    if ctl.get("vec") and ctl.get(name) is not None:
+        return f"{'self.ctrl' if ctl['vec'] == 'port' else 'cs'}[{ctl[name]}]"
+    return f"self.{name}"
+
+
 def render(d):
     """descriptor -> source text of a real design file"""
     L = ["import cohdl", "from cohdl import Bit, Port, Unsigned, BitVector, Variable, Signal, Array", "from cohdl import std", "",
          "class E(cohdl.Entity):", "    clk = Port.input(Bit)", "    rst = Port.input(Bit)", "    en = Port.input(Bit)",
          "    a = Port.input(Bit)", "    b = Port.input(Bit)"]
+    ctl = d.get("ctl") or {}
+    if ctl.get("vec"):
+        L.append(f"    ctrl = Port.input(BitVector[{ctl['w']}])")
     for o in d["objs"]:
         if o["cls"] == "port":
             kw = []
@@ -155,6 +167,9 @@ def render(d):
                 kw.append("noreset=True")
             L.append(f"    {o['name']} = Port.output({TY[o['ty']]['py']}{''.join(', ' + k for k in kw)})")
     L.append("    def architecture(self):")
+    if ctl.get("vec") == "sig":
+        # the control bits are bits of a LOCAL signal (a copy of the control bus)
+        L += [f"        cs = Signal[BitVector[{ctl['w']}]](name=\"cs\")", "        @std.concurrent", "        def drive_cs():", "            cs.next = self.ctrl"]
     for o in d["objs"]:
         if o["cls"] in ("sig", "var"):
             q = "Signal" if o["cls"] == "sig" else "Variable"
@@ -187,10 +202,11 @@ def render(d):
                 rhs = f"({ref(d['objs'][e[1]])} + 1)"
             L.append("            " + assign_text(d, t, rhs))
     fl = "[" + ", ".join(fns) + "]" if len(fns) != 1 else fns[0]
-    clk = "std.Clock(self.clk)"
+    edge = d.get("edge", "rising")
+    clk = f"std.Clock({ctl_expr(d, 'clk')}{'' if edge == 'rising' else ', active_edge=std.Clock.Edge.' + edge.upper()})"
     rst = None if d["reset"] == "none" else \
-        f"std.Reset(self.rst{', active_low=True' if d['low'] else ''}{', is_async=True' if d['reset'] == 'async' else ''})"
-    sc = "step_cond=lambda: self.en" if d["stepcond"] else None
+        f"std.Reset({ctl_expr(d, 'rst')}{', active_low=True' if d['low'] else ''}{', is_async=True' if d['reset'] == 'async' else ''})"
+    sc = f"step_cond=lambda: {ctl_expr(d, 'en')}" if d["stepcond"] else None
     reg = d["reg"] if rst and (fns or d["reg"] == "or_reset") else "call"
     base = [clk] + ([rst] if rst else [])
     if reg == "seq":
@@ -485,6 +501,22 @@ class Gen:
                     body.insert(0, body.pop(k))
         d["body"] = body
         d["clean"] = clean
+        # where the clock / reset / step condition come from: ports of their own, or bits of ONE control bus
+        # (a vector port, or a local signal copied from it), in any combination
+        d["edge"] = r.choice(["rising"] * 6 + ["falling", "falling", "both"])
+        d["ctl"] = None
+        if r.random() < 0.4:
+            w = r.randint(3, 4)
+            idx = list(range(w))
+            r.shuffle(idx)
+            ctl = {"vec": r.choice(["port", "port", "sig"]), "w": w, "clk": None, "rst": None, "en": None, "spare": None}
+            names = [n for n in ("clk", "rst", "en") if r.random() < 0.75] or ["rst"]
+            if r.random() < 0.5:
+                names = ["clk", "rst", "en"]
+            for n in names:
+                ctl[n] = idx.pop()
+            ctl["spare"] = idx.pop() if idx else None
+            d["ctl"] = ctl
         return d
 
 
@@ -510,8 +542,11 @@ def systematic_designs():
                             {"name": "extra", "cls": "sig", "ty": "bit", "default": 0, "noreset": False, "pushed": False},   # 5 on_reset
                             {"name": "cnt", "cls": "sig", "ty": "u2", "default": 0, "noreset": True, "pushed": False, "nr_form": 1},   # 6
                             {"name": "sl", "cls": "sig", "ty": "bv2", "default": 2, "noreset": False, "pushed": False},      # 7 slice
+                            {"name": "np", "cls": "sig", "ty": "bit", "default": 1, "noreset": True, "pushed": True, "nr_form": 0},   # 8 noreset + pushed
+                            {"name": "nv", "cls": "var", "ty": "bit", "default": 1, "noreset": True, "pushed": False, "nr_form": 0},  # 9 NoresetVariable
                         ]
-                        body = [["set", 1, ["in", "a"]], ["set", 4, ["inc", 4]], ["set", 3, ["o", 4]], ["setbit", 7, 0, ["in", "b"]]]
+                        body = [["set", 1, ["in", "a"]], ["set", 4, ["inc", 4]], ["set", 3, ["o", 4]], ["setbit", 7, 0, ["in", "b"]],
+                                ["if", ["b", ["in", "a"]], [["set", 8, ["c", 0]]], []], ["set", 9, ["in", "b"]]]
                         if coro:
                             body += [["await", ["b", ["in", "a"]]]]
                         body += [["set", 0, ["o", 4]], ["set", 2, ["o", 3]], ["set", 5, ["c", 0]]]
@@ -519,6 +554,28 @@ def systematic_designs():
                             body += [["await", ["b", ["in", "b"]]], ["set", 2, ["k", 1]]]
                         out.append({"reset": reset, "low": low, "stepcond": stepcond, "coro": coro, "reg": reg, "objs": objs,
                                     "body": body, "onreset": [[[5, ["c", 1]], [6, ["p", 6]]], [[2, ["o", 4]]]], "ext": None, "clean": False})
+    # control-bus family: clock, reset and step condition are bits of ONE vector (port / local signal), every wrapper,
+    # both polarities, every clock edge; also only the reset / only the clock on the bus
+    for reset in ("sync", "async"):
+        for low in (False, True):
+            for vec in ("port", "sig"):
+                for edge in ("rising", "falling", "both"):
+                    for which in (("clk", "rst", "en"), ("rst",), ("clk", "rst")):
+                        if which != ("clk", "rst", "en") and (edge != "rising" or vec == "sig"):
+                            continue
+                        ctl = {"vec": vec, "w": 4, "clk": None, "rst": None, "en": None, "spare": 3}
+                        for k, n in enumerate(which):
+                            ctl[n] = (k + (1 if low else 0)) % 3
+                        objs = [
+                            {"name": "o", "cls": "port", "ty": "u2", "default": 3, "noreset": False, "pushed": False},
+                            {"name": "keep", "cls": "sig", "ty": "u2", "default": 1, "noreset": True, "pushed": False, "nr_form": 1},
+                            {"name": "v", "cls": "var", "ty": "u2", "default": 2, "noreset": False, "pushed": False},
+                            {"name": "cnt", "cls": "sig", "ty": "u2", "default": 0, "noreset": True, "pushed": False, "nr_form": 0},
+                            {"name": "np", "cls": "port", "ty": "bit", "default": 0, "noreset": True, "pushed": True},
+                        ]
+                        body = [["set", 2, ["inc", 2]], ["set", 1, ["o", 2]], ["set", 0, ["inc", 0]], ["if", ["b", ["in", "a"]], [["set", 4, ["c", 1]]], []]]
+                        out.append({"reset": reset, "low": low, "stepcond": True, "coro": False, "reg": "call", "objs": objs, "body": body,
+                                    "onreset": [[[3, ["p", 3]]]], "ext": None, "clean": False, "ctl": ctl, "edge": edge})
     # a clean companion (everything resettable): THE PROPERTY applies to all of its objects
     for reset in ("sync", "async"):
         for low in (False, True):
@@ -582,17 +639,92 @@ def enc(v):
     raise AssertionError(repr(v))
 
 
+class PDesign(Design):
+    """vhdl_sim.Design with (a) element-precise sensitivity lists: a process with the sensitivity list
+    `(ctrl(0), ctrl(1))` is resumed only when the VALUE of one of the named elements changes (vhdl_sim resolves an
+    indexed name to the whole storage, which would hide a missing `ctrl(1)`), (b) rising_edge / falling_edge applied
+    to an indexed name (see SHARED-CHANGE-REQUEST in notes/C04.md)."""
+
+    def _sens_vals(self, pr):
+        return [self._eval(n, pr.scope, None) for n in pr.sens]
+
+    def refresh_sens(self):
+        self._sens_prev = {pr.pid: self._sens_vals(pr) for pr in self.procs if self.static_sens.get(pr.pid) is not None}
+
+    def initialise(self):
+        self._sens_prev = None
+        super().initialise()
+        self.refresh_sens()
+
+    def settle(self, max_deltas=1000):
+        if not self._initialised or self._sens_prev is None:
+            return super().settle(max_deltas)
+        n = 0
+        while self.events:
+            n += 1
+            if n > max_deltas:
+                raise VhdlRuntimeError("delta cycle limit exceeded (combinational loop)")
+            pending_all = []
+            for pr in self.procs:
+                sens = self.static_sens[pr.pid]
+                if sens is None:
+                    if self.dyn_sens.get(pr.pid, set()) & self.events:
+                        pending_all.append((pr, self._run_proc(pr)))
+                elif sens & self.events:
+                    cur = self._sens_vals(pr)
+                    prev = self._sens_prev[pr.pid]
+                    self._sens_prev[pr.pid] = cur
+                    if any(not _same_val(x, y) for x, y in zip(cur, prev)):
+                        pending_all.append((pr, self._run_proc(pr)))
+            self._apply(pending_all)
+
+    def _call(self, fname, args, scope, pr):
+        f = fname.lower()
+        if f in ("rising_edge", "falling_edge") and scope.lookup(fname) is None and len(args) == 1 and args[0][0] != "name":
+            node = args[0]
+            base = node
+            while base[0] != "name":
+                base = base[1] if base[0] != "call" else ("name", base[1])
+            rb = scope.lookup(base[1])
+            if rb is None or not hasattr(rb, "st") or not rb.st.is_signal:
+                raise VhdlTypeError(f"{f} applied to a non-signal")
+            self._note_read(rb, pr)
+            if id(rb.st) not in self.events or id(rb.st) not in self.last_values:
+                return False
+            cur = self._eval(node, scope, pr)
+            saved = rb.st.val
+            rb.st.val = self.last_values[id(rb.st)]
+            try:
+                last = self._eval(node, scope, None)
+            finally:
+                rb.st.val = saved
+            if not isinstance(cur, SL) or not isinstance(last, SL):
+                raise VhdlTypeError(f"{f} applied to a non std_logic element")
+            return (cur.v, last.v) == (("1", "0") if f == "rising_edge" else ("0", "1"))
+        return super()._call(fname, args, scope, pr)
+
+
+def _same_val(a, b):
+    if isinstance(a, Vec) and isinstance(b, Vec):
+        return a.bits == b.bits
+    return a == b
+
+
 class Sim:
     """the emitted design with snapshot / restore and the event-level view the model has"""
 
     def __init__(self, d, vhdl):
         self.d = d
-        self.des = Design(vhdl)
+        self.des = PDesign(vhdl)
         des = self.des
         self.inactive = 1 if d["low"] else 0
-        for p in ("clk", "en", "a", "b"):
+        self.ctl = d.get("ctl") or {}
+        self.edge = d.get("edge", "rising")
+        for p in ("clk", "rst", "en", "a", "b"):
             des.set(p, 0)
-        des.set("rst", self.inactive)
+        if self.ctl.get("vec"):
+            des.set("ctrl", 0)
+        self.set_ctl("rst", self.inactive)
         des.initialise()
         by = {st.name.lower(): st for st in des.storages}
         self.obj_st = []
@@ -608,8 +740,7 @@ class Sim:
         d["_statereg"] = "s_proc" in by
         if d["_statereg"]:
             self.obj_st.append(by["s_proc"])
-        self.rst_st = by["rst"]
-        self.keyed = [st for st in des.storages if st.port_dir != "in" and not _TEMP.search(st.name)]
+        self.keyed = [st for st in des.storages if st.port_dir != "in" and not _TEMP.search(st.name) and st.name.lower() != "cs"]
         self.absent = [o["name"] for o, st in zip(d["objs"], self.obj_st) if st.port_dir == "absent"]
         self.power_up = self.snap()
 
@@ -620,40 +751,103 @@ class Sim:
         for st, v in zip(self.des.storages, snap):
             st.val = v
         self.des.events = set()
+        self.des.refresh_sens()
+
+    def in_vec(self, name):
+        return bool(self.ctl.get("vec")) and self.ctl.get(name) is not None
+
+    def set_ctl(self, name, v):
+        """drive the clock / reset / step-condition signal wherever it lives"""
+        des = self.des
+        if self.in_vec(name):
+            cur = des.get("ctrl") or 0
+            k = self.ctl[name]
+            des.set("ctrl", (cur & ~(1 << k)) | (int(v) << k))
+        else:
+            des.set(name, v)
+
+    def get_ctl(self, name):
+        if self.in_vec(name):
+            return ((self.des.get("ctrl") or 0) >> self.ctl[name]) & 1
+        return self.des.get(name)
 
     def key(self):
-        return (repr(self.rst_st.val), tuple(repr(st.val) for st in self.keyed))
+        return (self.rst_level(), tuple(repr(st.val) for st in self.keyed))
 
     def vals(self):
         return tuple(enc(st.val) for st in self.obj_st)
 
     def rst_level(self):
-        return 1 if self.rst_st.val.v == "1" else 0
+        return self.get_ctl("rst")
 
     def act(self, a):
         """one low-level action; returns the model event it is (or None when no process can be activated)"""
         des = self.des
         if a[0] == "in":
             for k, v in a[1].items():
-                des.set(k, v)
+                if k == "en":
+                    self.set_ctl("en", v)
+                elif k == "spare":
+                    # a bit of the control bus nothing listens to
+                    if self.in_vec("spare"):
+                        self.set_ctl("spare", v)
+                else:
+                    des.set(k, v)
             des.settle()
             return None
         if a[0] == "rst":
             if self.rst_level() == a[1]:
                 return None
-            des.set("rst", a[1])
+            self.set_ctl("rst", a[1])
             des.settle()
             return self.event(0)
         if a[0] == "clk":
-            des.set("clk", a[1])
+            self.set_ctl("clk", a[1])
             des.settle()
-            return self.event(a[1])
+            active = {"rising": a[1] == 1, "falling": a[1] == 0, "both": True}[self.edge]
+            return self.event(1 if active else 0)
         raise AssertionError(a)
 
     def event(self, edge):
         des = self.des
-        en = des.get("en") if self.d["stepcond"] else 1
+        en = self.get_ctl("en") if self.d["stepcond"] else 1
         return (edge, self.rst_level(), en, des.get("a"), des.get("b"))
+
+
+def sens_text(n):
+    """canonical text of one entry of a printed sensitivity list"""
+    if n[0] == "name":
+        return n[1].lower()
+    if n[0] == "call":
+        return f"{n[1].lower()}({','.join(sens_text(x) for x in n[2])})"
+    if n[0] in ("int", "num", "lit"):
+        return str(n[1])
+    return repr(n)
+
+
+def vhdl_name(d, name):
+    ctl = d.get("ctl") or {}
+    if ctl.get("vec") and ctl.get(name) is not None:
+        return f"{'ctrl' if ctl['vec'] == 'port' else 'cs'}({ctl[name]})"
+    return name
+
+
+def check_sensitivity(d, sim):
+    """a VHDL process is resumed only by events on the signals of its sensitivity list: the clock and - for an
+    asynchronous reset, which must act at any instant - the reset signal have to be named there"""
+    if d["reg"] == "or_reset" and d["reset"] != "none":
+        return None   # the reset signal of a derived context is an internal signal
+    pr = next((p for p in sim.des.procs if (p.label or "").lower() == "proc"), None)
+    if pr is None or pr.kind != "process" or getattr(pr, "sens_all", False):
+        return None
+    printed = sorted(sens_text(n) for n in pr.sens)
+    need = [vhdl_name(d, "clk")] + ([vhdl_name(d, "rst")] if d["reset"] == "async" else [])
+    missing = [n for n in need if n not in printed]
+    if not missing:
+        return None
+    what = "async-reset" if missing[-1] == vhdl_name(d, "rst") and d["reset"] == "async" else "clock"
+    return {"check": "static", "kind": f"{what}-missing-in-sensitivity-list", "objclass": "process", "object": -1, "object_name": "proc",
+            "expected": sorted(need), "observed": printed, "pre": [], "event": [], "model": "-", "actions": []}
 
 
 def cycle_actions(a, b, en, rst):
@@ -704,6 +898,9 @@ def explore(job):
     rsts = (inact, act_l) if d["reset"] != "none" else (inact,)
     combos = [(a, b, en, rst) for rst in rsts for en in ens for a in (0, 1) for b in (0, 1)]
     data_combos = [(a, b, en) for en in ens for a in (0, 1) for b in (0, 1)]
+
+    # ---- (0) the printed sensitivity list names the clock and, for asynchronous resets, the reset signal
+    static_dev = check_sensitivity(d, sim)
 
     # ---- (1) reachable state space, breadth first; every activation recorded
     records = {}   # (pre, ev) -> (post, locator)
@@ -777,7 +974,7 @@ def explore(job):
                     parent.append((sid, acts))
             # reset pulse while the clock is low, no clock event at all
             sim.restore(snap)
-            acts = [("in", {"a": 1, "b": 0, "en": ens[-1]}), ("rst", act_l), ("rst", inact)]
+            acts = [("in", {"a": 1, "b": 0, "en": ens[-1]}), ("in", {"spare": 1}), ("rst", act_l), ("in", {"spare": 0}), ("rst", inact)]
             tag = ("pulse", ())
             scen[tag] = acts
             run_actions(sid, acts, tag)
@@ -817,7 +1014,11 @@ def explore(job):
             if i == ext:
                 continue   # driven by the other context
             if e != o:
-                if f[0] == "reset":
+                if f[0] == "reset" and ev[0] == 0 and tuple(post) == tuple(pre):
+                    # an activation without clock edge (change of the reset / inactive clock edge) in which the reset is
+                    # active changed nothing at all: the process was not resumed
+                    kind, cls = "reset-without-clock-edge-has-no-effect", "any"
+                elif f[0] == "reset":
                     kind, cls = classify(d, i, e, o, pre, R, on_targets)
                 else:
                     kind, cls = "object-changed-without-activation-of-the-body", "any"
@@ -829,6 +1030,8 @@ def explore(job):
                                    "object_name": d["objs"][i]["name"] if i < len(d["objs"]) else "s_proc",
                                    "expected": e, "observed": o, "pre": list(pre), "event": list(ev), "model": f[0],
                                    "actions": prefix(sid) + list(scen[tag][: k + 1])})
+    if static_dev:
+        deviations.append(static_dev)
     for (sid, tag, k, pre, post) in silent_dev[:1]:
         deviations.append({"check": "activation", "kind": "object-changed-without-process-activation", "objclass": "any", "object": -1,
                            "object_name": "?", "expected": list(pre), "observed": list(post), "pre": list(pre), "event": [], "model": "hold",
@@ -1047,6 +1250,9 @@ def minimise_task(job):
 def describe(d, dev):
     acts = dev["actions"]
     n_clk = sum(1 for a in acts if a[0] == "clk" and a[1] == 1)
+    if dev["check"] == "static":
+        return (f"{d['reset']} reset ({'active-low' if d['low'] else 'active-high'}), control signals {d.get('ctl')}: {dev['kind']} - the process is "
+                f"sensitive to {dev['observed']} only, it must be resumed by events on {dev['expected']}")
     if dev["check"] == "after-release":
         return (f"{d['reset']} reset ({'active-low' if d['low'] else 'active-high'}), design minimised to {len(d['objs'])} objects: after {n_clk} clocks "
                 f"(the last {dev['reset_clocks']} with reset asserted) and release of reset, the objects {dev['footprint']} show {dev['observed']} after "
@@ -1066,12 +1272,26 @@ def run(ctx: Ctx):
                 "with Lean `stepR`, or one post-release trace compared with the power-up trace.  distinct non-trivial = distinct (design, "
                 "objects-before, event) triples in which the model forbids the body to run (reset branch / nothing executes) plus distinct "
                 "post-reset states whose later traces were compared")
-    n_random = ctx.scale(150, 1500)
+    n_random = ctx.scale(120, 1500)
     P = {"max_states": ctx.scale(100, 600), "n_seq": ctx.scale(4, 10), "seq_len": ctx.scale(5, 8), "seed": ctx.seed}
     P_min = {"max_states": 40, "n_seq": 3, "seq_len": 5, "seed": ctx.seed}
     g = Gen(rng)
     designs = systematic_designs() + [g.design() for _ in range(n_random)]
-    compiled = compile_many([(render(d), "E") for d in designs])
+    # a push target without default has no value `reset_pushed()` / `reset_context()` could give it: must be rejected
+    neg = []
+    for cls in ("port", "sig"):
+        for ty in ("bit", "u2"):
+            neg.append({"reset": "sync", "low": False, "stepcond": False, "coro": False, "reg": "call", "ext": None, "onreset": [], "clean": False,
+                        "objs": [{"name": "x0", "cls": cls, "ty": ty, "default": None, "noreset": False, "pushed": True}],
+                        "body": [["set", 0, ["in", "a"] if ty == "bit" else ["k", 1]]]})
+    compiled = compile_many([(render(d), "E") for d in designs + neg])
+    for d, c in zip(neg, compiled[len(designs):]):
+        ctx.case(key=("neg", d["objs"][0]["cls"], d["objs"][0]["ty"]), kind="pushed-without-default")
+        if c["ok"]:
+            ctx.report(f"pushed-target-without-default-accepted:{d['objs'][0]['cls']}",
+                       "a signal without default is accepted as target of a push assignment (there is no value reset could give it)",
+                       {"design": d, "source": render(d), "deviation": {"check": "static", "kind": "accepted", "expected": [], "observed": [], "actions": []}, "params": {}})
+    compiled = compiled[: len(designs)]
     jobs, meta = [], []
     rejected = 0
     for d, c in zip(designs, compiled):
@@ -1181,6 +1401,10 @@ def _replay_task(job):
         log.append(f"{a} -> {' '.join(post)}" + (f"   activation(edge,rst,en,a,b)={ev}" if ev else ""))
         if ev is not None:
             last = (pre, ev, post)
+    if dev["check"] == "static":
+        sd = check_sensitivity(d, sim)
+        log.append(f"sensitivity list of the process: {sd['observed'] if sd else 'complete'}; required: {dev['expected']}")
+        return {"log": log, "fails": sd is not None}
     if dev["check"] == "activation":
         if last is None:
             return {"log": log + ["no activation in the replay"], "fails": dev["kind"] == "object-changed-without-process-activation"}
